@@ -53,7 +53,8 @@ CHECKS = {
     'C14': dict(
         technique='Lean 4 proof (refinement of the direct semantics by the proxy machinery, generic in the hosted classes) + differential runs of real multi-process/multi-thread histories against local objects and the Lean heap machine',
         text='C14_refines_direct (for every semantics of the hosted classes and every history of requests from any clients: '
-             'outcomes = direct outcomes in issue order, same heap, connections stay open), C14_error_transparent, '
+             'outcomes = direct outcomes in issue order, same heap, connections stay open), C14_linearizable (every '
+             'interleaving of concurrent clients = a sequential run in method-execution order, replies to their own callers in order), C14_error_transparent, '
              'C14_managed_alias, C14_unhosted_remoteError. Tie: random histories of list/dict/Namespace/Value/custom-class '
              'operations with arbitrary picklable arguments, raising operations, managed() views, proxies used inside the '
              'server and concurrent batches, issued through proxies in 2-3 processes and extra threads against a real '
